@@ -179,6 +179,7 @@ def drive(case, monitors, learner_cls=None, step_limit=10 ** 7, wall_s=600, use_
     fn = C.reward_fn(case)
     labels = labels_of(case)
     queries = collections.Counter(case.get("queries") or [])
+    midq = collections.Counter(case.get("midqueries") or [])
     P = part_cls or C.make_part_class(case["part"], hub)
     old = signal.signal(signal.SIGALRM, _alarm)
     signal.alarm(int(wall_s))
@@ -221,6 +222,21 @@ def drive(case, monitors, learner_cls=None, step_limit=10 ** 7, wall_s=600, use_
                     if not isinstance(p, (list, tuple)):
                         ctx.stopped = "pull returned %r" % (type(p).__name__,)
                         break
+                    for _ in range(midq.get(i, 0)):
+                        # a recommendation query while the evaluation of the pulled point is still pending
+                        phase = hub.phase = "midquery"
+                        ctx.extra["mid"] = True
+                        for m in monitors:
+                            m.before_query(ctx)
+                        if budget:
+                            budget.reset()
+                        q = ctx.algo.get_last_point()
+                        if budget:
+                            budget.note()
+                        for m in monitors:
+                            m.on_query(ctx, q)
+                        ctx.extra["mid"] = False
+                        hub.phase = "idle"
                     r = fn(i, p)
                     entry["reward"] = r
                     phase = hub.phase = "reward"
